@@ -20,6 +20,11 @@ def run(tier, work):
     fixed = os.environ.get("VERIF_C08_DESIGN", "pinned")
     mc = storelib.tlc_mc(work, "ReadBufferMC_%s.cfg" % ("fixed_big" if thorough else "fixed"), module="ReadBuffer")
     simdir, n = storelib.tlc_sim(work, "ReadBufferSim.cfg", 1500 if thorough else 250, 601, "rb", module="ReadBufferSim")
+    # walks with a lagging reader (stale head: a whole lap drained between its head load and its tail load)
+    lagdir, nlag = storelib.tlc_sim(work, "ReadBufferSim_lag.cfg", 300 if thorough else 40, 1601, "rblag", module="ReadBufferSim")
+    for f in sorted(os.listdir(lagdir)):
+        os.replace(os.path.join(lagdir, f), os.path.join(simdir, f.replace("sim_", "sim_lag_")))
+    n += nlag
     out = storelib.run_driver(work, "TestVerif_C08Buffer", "buf", env={"VERIF_IN": simdir, "VERIF_N": 120 if thorough else 20})
     tf = os.path.join(out, "buffer.ndjson")
     res = storelib.validate(work, tf, "buf", module="ReadBufferTrace", cfg="ReadBufferTrace.cfg")
